@@ -92,7 +92,7 @@ def run(res, replay=None):
     else:
         n = (40, 45) if res.tier == 'quick' else (400, 60)
         w = sc.weights(app=22, batch=12, adm=6, app_flags=2, adm_flags=1, restart=7, resend_request=6, corrupt=5, test_request=5,
-                       in_seq=14, too_high=4, logon_again=2, restart_rewind=2, _always=0.08, _ext=0.12)
+                       in_seq=14, too_high=4, logon_again=2, restart_rewind=2, _always=0.08, _ext=0.12, _big=0.05)
         lines, _ = sc.generate('C16', res.seed, n[0], n[1], w, persist=('mem', 'file', 'file', 'none'))
         lines = vlib.corpus_lines('C16') + lines
     res.assumptions += ['initiator role; model and theorems are for _always_seqnum_assign = false (8% of the segments run with it on, with forwarded messages that already carry a MsgSeqNum: those segments are judged by the property oracle only); in the modelled segments sends succeed at the socket (send() of the connection is captured); 12% of the segments (marked X; modelled by Sess.stepX, theorems C16X_*) add application retransmissions (a message that already carries a MsgSeqNum) alone and inside / at the tail of a batch, and application sends whose socket write fails',
